@@ -19,6 +19,7 @@ from harness.common import Ctx, coq_bool, coq_list, coq_nat, coq_Q, coq_Z
 
 HEADER = X3.HEADER + r"""
 From Splinkv Require Import Model.Estimators.
+From Splinkv Require Base.TV Model.Blocking.
 Definition est_case (c : nat * list (list Z) * model * model) : bool :=
   match c with (kind, rows, before, after) =>
     model_close (match kind with
@@ -31,12 +32,21 @@ Definition lt_of (k : nat) : link_t := match k with O => DedupeOnly | 1%nat => L
 (* link type, table sizes, observed distinct matched pairs, recall, implementation: (0, p) = prior p,
    (1, _) = ValueError "more observed matches than is consistent with supplied recall",
    (2, _) = ZeroDivisionError (no admissible pair at all) *)
-Definition prior_run (c : nat * list nat * Z * Q * (nat * Q)) : bool :=
-  match c with (k, ns, obs, recall, impl) =>
+Definition tvn (n : nat) : Splinkv.Base.TV.tv :=
+  match n with O => Splinkv.Base.TV.F | 1%nat => Splinkv.Base.TV.T | _ => Splinkv.Base.TV.U end.
+(* the Gallina observed_matches (C01's block on the records against themselves) on the outcome matrices
+   (row-major n x n; 1 true, 0 false, 2 NULL) of each deterministic rule and the admissibility matrix *)
+Definition model_observed (n : nat) (adm : list nat) (mats : list (list nat)) : nat :=
+  observed_matches (fun l r => Nat.eqb (nth (l * n + r) adm 0%nat) 1%nat)
+                   (map (fun m => fun l r => tvn (nth (l * n + r) m 2%nat)) mats) (seq 0%nat n).
+Definition prior_run (c : nat * list nat * Z * Q * (nat * Q) * (nat * list nat * list (list nat))) : bool :=
+  match c with (k, ns, obs, recall, impl, (n, adm, mats)) =>
     match cartesian (lt_of k) (map (fun n => inject_Z (Z.of_nat n)) ns) with
     | Some cart =>
         Qeq_bool cart (inject_Z (Z.of_nat (admissible_pairs (lt_of k) ns))) &&
-        match prior_estimate (inject_Z obs) recall cart, impl with
+        Z.eqb (Z.of_nat (model_observed n adm mats)) obs &&
+        match prior_from_records (fun l r => Nat.eqb (nth (l * n + r) adm 0%nat) 1%nat)
+                                 (map (fun m => fun l r => tvn (nth (l * n + r) m 2%nat)) mats) (seq 0%nat n) recall cart, impl with
         | PriorOk p, (O, q) => qclose p q
         | RecallInconsistent, (1%nat, _) => true
         | PriorZeroDivision, (2%nat, _) => true
@@ -288,11 +298,35 @@ def prior_boundary(case, obs):
     return obs == recall_of(case) * len(admissible(case["link_type"], case["tables"]))
 
 
+def rule_matrices(case):
+    """admissibility matrix (l before r in the engines' id order; link_only: different tables) and, per
+    deterministic rule, the three-valued outcome on every ordered pair of records (NULL when a column is NULL)"""
+    recs = records(case)
+    n = len(recs)
+    adm = [0] * (n * n)
+    for i, j in admissible(case["link_type"], case["tables"]):
+        a, b = orient(case, recs, i, j)
+        adm[a * n + b] = 1
+    mats = []
+    for rule in case["prior_op"]["rules"]:
+        cols = [p.split('"')[1] for p in rule.split(" AND ")]
+        m = []
+        for l in recs:
+            for r in recs:
+                outs = [None if l[c] is None or r[c] is None else l[c] == r[c] for c in cols]
+                m.append(0 if any(o is False for o in outs) else 2 if any(o is None for o in outs) else 1)
+        mats.append(m)
+    return n, adm, mats
+
+
 def prior_term(case, obs, impl):
     ns = [len(t) for t in case["tables"]]
     im = "(1%nat, 0)" if impl is None else "(2%nat, 0)" if impl == "ZD" else f"(0%nat, {coq_Q(impl)})"
+    n, adm, mats = rule_matrices(case)
+    rec = (f"({coq_nat(n)}, {coq_list([coq_nat(x) for x in adm], 'nat')}, "
+           f"{coq_list([coq_list([coq_nat(x) for x in m], 'nat') for m in mats], '(list nat)')})")
     return (f"({coq_nat(LTCODE[case['link_type']])}, {coq_list([coq_nat(n) for n in ns], 'nat')}, {coq_Z(obs)}, "
-            f"{coq_Q(recall_of(case))}, {im})")
+            f"{coq_Q(recall_of(case))}, {im}, {rec})")
 
 
 def prior_oracle(case, obs, impl):
